@@ -9,6 +9,8 @@ package abi
 
 // precompiled_info.go — TRUSTED SUMMARIES (listed in the evidence's trusted base) of go-ethereum accounts/abi
 // (abi.Arguments.Unpack / Pack, type.go, unpack.go) applied to the embedded ABI documents (erc20.abi.json ...):
+// (helper cpc2: the same summary covers the staking ABI's methods of the same input shapes — delegate / undelegate
+// (address, uint256), redelegate (address, address, uint256), withdrawReward (address), withdrawRewards ())
 // the Go types of the unpacked values are fixed by the ABI types of the method's inputs
 // (address -> common.Address, uint256 -> *big.Int in [0, 2^256), see accounts/abi/unpack.go toGoType / ReadInteger).
 // The decoded values are named by uninterpreted functions of the call data.
@@ -23,10 +25,10 @@ package abi
 //@ func (s CustomPrecompiledContractInfo) UnpackMethodInput(methodName string, fullInput []byte) (ips []interface{}, err error)
 //@   assumed
 //@   modifies nothing
-//@   ensures (err == nil && (methodName == "name" || methodName == "symbol" || methodName == "decimals" || methodName == "totalSupply")) ==> len(ips) == 0
-//@   ensures (err == nil && methodName == "balanceOf") ==> (len(ips) == 1 && typeof(ips[0]) == type(common.Address) && unbox(ips[0], type(common.Address)) == abiArgAddr(bytes(fullInput), 0))
-//@   ensures (err == nil && (methodName == "transfer" || methodName == "approve" || methodName == "burnFrom")) ==> (len(ips) == 2 && typeof(ips[0]) == type(common.Address) && unbox(ips[0], type(common.Address)) == abiArgAddr(bytes(fullInput), 0) && typeof(ips[1]) == type(*big.Int) && unbox(ips[1], type(*big.Int)) != nil && fresh(unbox(ips[1], type(*big.Int))) && bigval[unbox(ips[1], type(*big.Int))] == abiArgUint(bytes(fullInput), 1) && 0 <= abiArgUint(bytes(fullInput), 1) && abiArgUint(bytes(fullInput), 1) < pow2(256))
-//@   ensures (err == nil && methodName == "transferFrom") ==> (len(ips) == 3 && typeof(ips[0]) == type(common.Address) && unbox(ips[0], type(common.Address)) == abiArgAddr(bytes(fullInput), 0) && typeof(ips[1]) == type(common.Address) && unbox(ips[1], type(common.Address)) == abiArgAddr(bytes(fullInput), 1) && typeof(ips[2]) == type(*big.Int) && unbox(ips[2], type(*big.Int)) != nil && fresh(unbox(ips[2], type(*big.Int))) && bigval[unbox(ips[2], type(*big.Int))] == abiArgUint(bytes(fullInput), 2) && 0 <= abiArgUint(bytes(fullInput), 2) && abiArgUint(bytes(fullInput), 2) < pow2(256))
+//@   ensures (err == nil && (methodName == "name" || methodName == "symbol" || methodName == "decimals" || methodName == "totalSupply" || methodName == "withdrawRewards")) ==> len(ips) == 0
+//@   ensures (err == nil && (methodName == "balanceOf" || methodName == "withdrawReward")) ==> (len(ips) == 1 && typeof(ips[0]) == type(common.Address) && unbox(ips[0], type(common.Address)) == abiArgAddr(bytes(fullInput), 0))
+//@   ensures (err == nil && (methodName == "transfer" || methodName == "approve" || methodName == "burnFrom" || methodName == "delegate" || methodName == "undelegate")) ==> (len(ips) == 2 && typeof(ips[0]) == type(common.Address) && unbox(ips[0], type(common.Address)) == abiArgAddr(bytes(fullInput), 0) && typeof(ips[1]) == type(*big.Int) && unbox(ips[1], type(*big.Int)) != nil && fresh(unbox(ips[1], type(*big.Int))) && bigval[unbox(ips[1], type(*big.Int))] == abiArgUint(bytes(fullInput), 1) && 0 <= abiArgUint(bytes(fullInput), 1) && abiArgUint(bytes(fullInput), 1) < pow2(256))
+//@   ensures (err == nil && (methodName == "transferFrom" || methodName == "redelegate")) ==> (len(ips) == 3 && typeof(ips[0]) == type(common.Address) && unbox(ips[0], type(common.Address)) == abiArgAddr(bytes(fullInput), 0) && typeof(ips[1]) == type(common.Address) && unbox(ips[1], type(common.Address)) == abiArgAddr(bytes(fullInput), 1) && typeof(ips[2]) == type(*big.Int) && unbox(ips[2], type(*big.Int)) != nil && fresh(unbox(ips[2], type(*big.Int))) && bigval[unbox(ips[2], type(*big.Int))] == abiArgUint(bytes(fullInput), 2) && 0 <= abiArgUint(bytes(fullInput), 2) && abiArgUint(bytes(fullInput), 2) < pow2(256))
 //@   ensures (err == nil && methodName == "allowance") ==> (len(ips) == 2 && typeof(ips[0]) == type(common.Address) && unbox(ips[0], type(common.Address)) == abiArgAddr(bytes(fullInput), 0) && typeof(ips[1]) == type(common.Address) && unbox(ips[1], type(common.Address)) == abiArgAddr(bytes(fullInput), 1))
 //@   ensures (err == nil && methodName == "burn") ==> (len(ips) == 1 && typeof(ips[0]) == type(*big.Int) && unbox(ips[0], type(*big.Int)) != nil && fresh(unbox(ips[0], type(*big.Int))) && bigval[unbox(ips[0], type(*big.Int))] == abiArgUint(bytes(fullInput), 0) && 0 <= abiArgUint(bytes(fullInput), 0) && abiArgUint(bytes(fullInput), 0) < pow2(256))
 //@   panics only_if len(fullInput) < 4 || !abiSelectorOk(methodName, bytes(fullInput))
